@@ -56,4 +56,10 @@ def diffDisplay (d : ResSet × ResSet) : List Nat :=
   (if !isEmpty d.1 then str "Added:" ++ displayPart d.1 ++ (if !isEmpty d.2 then str " " else []) else []) ++
   (if !isEmpty d.2 then str "Removed:" ++ displayPart d.2 else [])
 
+/-- `ResourceSet::from_strs`: the three text forms, each read by its own parser -/
+def fromStrs (asn v4 v6 : List Nat) : Option ResSet :=
+  match readAs asn, readIp true v4, readIp false v6 with
+  | some a, some b, some c => some ⟨a, b, c⟩
+  | _, _, _ => none
+
 end Rpki.ResSetOps
